@@ -55,20 +55,16 @@ Fixpoint create_many (t : ts) (vs : list val) (i : N) : list jt * N :=
 Fixpoint jview (j : jt) : val :=
   match j with
   | JE _ _ v => v
-  | JO _ _ m _ =>
-      let fix go (m : list (str * jt)) : list (str * val) :=
-        match m with
-        | [] => []
-        | (k, c) :: r => if jtomb c then go r else (k, jview c) :: go r
-        end in
-      VObj (sort_by_key (go m))
-  | JA _ _ l _ =>
-      let fix go (l : list (ts * jt)) : list val :=
-        match l with
-        | [] => []
-        | (_, c) :: r => if jtomb c then go r else jview c :: go r
-        end in
-      VArr (go l)
+  | JO _ _ m _ => VObj (sort_by_key (flat_map (fun kc => match kc with (k, c) => if jtomb c then [] else [(k, jview c)] end) m))
+  | JA _ _ l _ => VArr (flat_map (fun oc => match oc with (_, c) => if jtomb c then [] else [jview c] end) l)
+  end.
+
+(* every creation timestamp of the tree, parents before children, members in order *)
+Fixpoint all_cs (j : jt) : list ts :=
+  match j with
+  | JE c _ _ => [c]
+  | JO c _ m _ => c :: flat_map (fun kc => match kc with (_, x) => all_cs x end) m
+  | JA c _ l _ => c :: flat_map (fun oc => match oc with (_, x) => all_cs x end) l
   end.
 
 (* ---------- finding a container by its creation timestamp (NodeMap), anywhere in the tree ---------- *)
